@@ -568,7 +568,7 @@ func TestDrive_C07(t *testing.T) {
 	driveC07Race(t)
 	pf := execProfile{name: "C07", kinds: []string{"Timeout", "Timeout", "Retry", "Fallback", "Bulkhead", "Limiter", "Breaker"}, hedgePct: 20, maxDepth: 4, mustHave: "Timeout", extPct: 0, coopPct: 50, maxReqs: 2, withExec: true}
 	driveExec(t, "C07", pf, 0, 0,
-		"stacks containing at least one Timeout (limits 1.5-8.5 us with distinct residues) alone and relative to retry, fallback, bulkhead, rate limiter and breaker, including nested timeouts; function durations placed at 0, limit/2, limit-1ns, limit+1ns, 2*limit, 3*limit+7 for cooperative (return on cancellation) and non-cooperative functions. Non-trivial = a timeout fired or a failure was handled. "+execRule,
+		"stacks containing at least one Timeout (limits 1.5-8.5 us with distinct residues) alone and relative to retry, fallback, bulkhead, rate limiter and breaker, including nested timeouts; function durations placed at 0, limit/2, limit-1ns, limit+1ns, 2*limit, 3*limit+7 for cooperative (return on cancellation) and non-cooperative functions; plus retries around a Timeout where an earlier attempt timed out and the caller cancels in the middle of a later attempt. Non-trivial = a timeout fired or a failure was handled. "+execRule,
 		func(w *CaseWriter, rng *Rng, add func(InstD, []ReqD, string)) {
 			n := 450
 			if envTier() == "thorough" {
@@ -581,6 +581,49 @@ func TestDrive_C07(t *testing.T) {
 				}
 				aroundLimits(rng, reqs)
 				add(inst, reqs, "around-limit")
+			}
+			// a retry policy around the Timeout: an earlier attempt times out, then the caller's context is cancelled (or its
+			// deadline reached) in the middle of a later attempt, whose own limit has not expired
+			m := 30
+			if envTier() == "thorough" {
+				m = 800
+			}
+			for i := 0; i < m; i++ {
+				limit := int64(2+rng.Intn(6))*1024 + 512
+				delay := Pick(rng, []int64{0, 1024, 2048})
+				stack := []PolD{{K: "Retry", MaxRetries: int64(2 + rng.Intn(2)), Delay: delay}}
+				if rng.Chance(30) {
+					stack = append(stack, PolD{K: "Fallback", Handle: []CallD{{K: "Result", R: 7}}, FBKind: "Result", FBR: -9})
+				}
+				stack = append(stack, PolD{K: "Timeout", Limit: limit})
+				coop := OutD{R: -5, Err: &ErrD{K: "Sent", A: 2}}
+				first := FnStepD{Out: OutD{R: 1}, Dur: limit + 1024 + int64(rng.Intn(3))*512}
+				if rng.Bool() {
+					first.Coop = &coop
+				}
+				later := FnStepD{Out: OutD{R: 1}, Dur: limit - 256}
+				if rng.Bool() {
+					later.Coop = &coop
+				}
+				// attempt 2 starts at limit (+ whatever the first attempt still takes when it ignores the cancellation) + delay
+				start2 := limit + delay
+				if first.Coop == nil {
+					start2 = first.Dur + delay
+				}
+				rq := ReqD{Stack: stack, CtxKey: -1, Entry: Pick(rng, execEntries), Script: []FnStepD{first, later},
+					ExtT: start2 + 300 + int64(rng.Intn(int(limit-700))), ExtKind: Pick(rng, []string{"Cancel", "Deadline"})}
+				if strings.HasPrefix(rq.Entry, "Run") {
+					rq.Script[0].Out.R, rq.Script[1].Out.R = 0, 0
+					c0 := coop
+					c0.R = 0
+					if rq.Script[0].Coop != nil {
+						rq.Script[0].Coop = &c0
+					}
+					if rq.Script[1].Coop != nil {
+						rq.Script[1].Coop = &c0
+					}
+				}
+				add(InstD{}, []ReqD{rq}, "cancel-after-earlier-timeout")
 			}
 		})
 }
